@@ -162,7 +162,22 @@ fn ds(v: u64) -> Dsize {
 }
 
 /// op = "new" | "read"; generic tail shared by every type
+thread_local! {
+    /// the streams of a `seq` request (successive reads into ONE receiver)
+    static SEQ: std::cell::RefCell<Vec<Vec<u8>>> = const { std::cell::RefCell::new(Vec::new()) };
+}
+
 fn finish<T: ReaderFrom + WriterTo>(t: &mut T, op: &str, input: &[u8], extra: impl Fn(&T) -> String) -> String {
+    if op == "seq" {
+        // receiver reuse: every stream is read into the same object; one `|`-separated answer per read
+        let streams: Vec<Vec<u8>> = SEQ.with(|s| s.borrow().clone());
+        let mut out: Vec<String> = Vec::new();
+        for st in &streams {
+            let o = do_read(t, st);
+            out.push(format!("{o} W={}{}", rewrite(t), extra(t)));
+        }
+        return out.join(" | ");
+    }
     if op == "new" {
         format!("ok W={}{}", rewrite(t), extra(t))
     } else {
@@ -444,7 +459,11 @@ pub fn run(_args: &[String]) {
         }
         let (id, op) = (t[0], t[1]);
         let ans = match op {
-            "new" | "read" => {
+            "new" | "read" | "seq" => {
+                if op == "seq" {
+                    let v: Vec<Vec<u8>> = kv(&t, "in").unwrap_or("-").split(';').map(unhex).collect();
+                    SEQ.with(|s| *s.borrow_mut() = v);
+                }
                 let ty = kv(&t, "type").unwrap_or("");
                 let p = nums(kv(&t, "p"));
                 let seed = kv(&t, "fill").and_then(|x| x.parse().ok()).unwrap_or(0u64);
